@@ -743,6 +743,61 @@ func runC07(c *core.Ctx) core.Meta {
 		}
 	}
 
+	// ---------------- R07.6 staging buffers hold the widest operand ----------------
+	st6w := c.Rule("R07.6", "a fixed-size staging buffer of an operand accessor (a local [N]byte that is sliced to the operand's byte width) holds the widest operand the decoder produces: N >= 4 * the largest constant the decoder stores into Operand.RegCount (16 registers: s_load_dwordx16)", 1)
+	{
+		maxRegs := int64(0)
+		for _, fn := range c.SrcFuncs(instsPkg) {
+			for _, b := range fn.Blocks {
+				for _, in := range b.Instrs {
+					if s, ok := in.(*ssa.Store); ok {
+						if fa, ok := s.Addr.(*ssa.FieldAddr); ok && fieldNameOf(fa) == "RegCount" {
+							if k, isC := core.ConstInt(s.Val); isC && k > maxRegs {
+								maxRegs = k
+							}
+						}
+					}
+				}
+			}
+		}
+		if maxRegs < 2 {
+			c.Report(core.Finding{Rule: "R07.6", Kind: "anchor", Pkg: instsPkg, Func: "-", Detail: "max-regcount", Msg: "no constant RegCount stored by the decoder"})
+		}
+		for _, fnName := range []string{"Wavefront.ReadReg", "Wavefront.WriteReg", "Wavefront.ReadOperandBytes", "Wavefront.readRegOperand"} {
+			fn := c.SSAFunc(emuPkg, fnName)
+			if fn == nil {
+				continue
+			}
+			for _, b := range fn.Blocks {
+				for _, in := range b.Instrs {
+					sl, ok := in.(*ssa.Slice)
+					if !ok || sl.High == nil {
+						continue
+					}
+					if _, isC := core.ConstInt(sl.High); isC {
+						continue // a fixed window, not the operand width
+					}
+					al, ok := sl.X.(*ssa.Alloc)
+					if !ok {
+						continue
+					}
+					arr, ok := al.Type().Underlying().(*types.Pointer).Elem().Underlying().(*types.Array)
+					if !ok {
+						continue
+					}
+					st6w.Instances++
+					c.MarkAnalysed(fn)
+					okW := arr.Len() >= 4*maxRegs
+					st6w.Ob(okW)
+					st6w.Sample("%s: [%d]byte staging buffer, widest decoded operand %d registers", fnName, arr.Len(), maxRegs)
+					if !okW {
+						c.ReportAt("R07.6", fn, sl.Pos(), "staging-buffer:"+fnName, fmt.Sprintf("%s stages the operand in a [%d]byte buffer sliced to the operand width; the decoder produces operands of %d registers (%d bytes): reading such an operand back panics with slice bounds out of range", fnName, arr.Len(), maxRegs, 4*maxRegs))
+					}
+				}
+			}
+		}
+	}
+
 	// ---------------- R07.4 release touches own registers only ----------------
 	st4 := c.Rule("R07.4", "releasing a wavefront's registers clears storage starting at the wavefront's own register-file offsets with lengths taken from its code object", 2)
 	if fn := c.MustFunc("R07.4", cuPkg, "SchedulerImpl.resetRegisterValue"); fn != nil {
